@@ -35,6 +35,7 @@ use zksync_consensus_roles::validator::{self, v2};
 // ---------------------------------------------------------------------------
 // world: genesis, committees, block construction
 
+#[derive(Debug)]
 struct World {
     genesis: validator::Genesis,
     committee: Vec<validator::SecretKey>,
@@ -227,9 +228,11 @@ fn payload_of(b: &validator::Block) -> Vec<u8> {
 
 #[derive(Debug)]
 struct Inner {
+    world: Arc<World>,
     genesis: validator::Genesis,
     persisted: sync::watch::Sender<BlockStoreState>,
-    /// durable content
+    /// durable content that went through queue_next_block; every other number of the
+    /// durable range holds a side-channel block (synthesised on demand)
     durable: Mutex<BTreeMap<u64, validator::Block>>,
     /// latest block handed to queue_next_block per number
     submitted: Mutex<BTreeMap<u64, validator::Block>>,
@@ -277,10 +280,10 @@ impl EngineInterface for Eng {
         if !self.0.persisted.borrow().contains(number) {
             return Err(anyhow::format_err!("not found").into());
         }
-        match self.0.durable.lock().unwrap().get(&number.0) {
-            Some(b) => Ok(b.clone()),
-            None => Err(anyhow::format_err!("not found").into()),
-        }
+        Ok(match self.0.durable.lock().unwrap().get(&number.0) {
+            Some(b) => b.clone(),
+            None => self.0.world.side_block(number.0),
+        })
     }
     async fn queue_next_block(&self, ctx: &ctx::Ctx, block: validator::Block) -> ctx::Result<()> {
         let env_next = self.0.persisted.borrow().next().0;
@@ -289,7 +292,15 @@ impl EngineInterface for Eng {
             .lock()
             .unwrap()
             .insert(block.number().0, block.clone());
-        self.0.log.lock().unwrap().push((block, env_next));
+        let storm = {
+            let mut log = self.0.log.lock().unwrap();
+            log.push((block, env_next));
+            log.len() >= MAX_SUBMITS
+        };
+        if storm {
+            // runaway persister (only under a broken manager): stop feeding it
+            ctx.wait(std::future::pending::<()>()).await?;
+        }
         loop {
             let notified = self.0.notify.notified();
             {
@@ -344,20 +355,17 @@ impl EngineInterface for Eng {
 impl Eng {
     /// The persistence layer publishes a new durable range; newly covered numbers get the
     /// block that was submitted for them, or a side-channel block.
-    fn publish(&self, w: &World, new: BlockStoreState) {
+    fn publish(&self, new: BlockStoreState) {
         let old_next = self.0.persisted.borrow().next().0;
         let new_next = new.next().0;
         {
             let mut d = self.0.durable.lock().unwrap();
             let sub = self.0.submitted.lock().unwrap();
-            // numbers already durable keep their content; newly covered ones (completion,
-            // side-channel jump, backfill) get the submitted block or a side-channel block.
-            // Far jumps: only the numbers that can be read back matter.
-            let _ = old_next;
-            let lo = new.first.0.max(new_next.saturating_sub(400));
-            for n in lo..new_next {
-                d.entry(n)
-                    .or_insert_with(|| sub.get(&n).cloned().unwrap_or_else(|| w.side_block(n)));
+            let lo = old_next.max(new.first.0);
+            if lo < new_next {
+                for (n, b) in sub.range(lo..new_next) {
+                    d.insert(*n, b.clone());
+                }
             }
             let first = new.first.0;
             d.retain(|k, _| *k >= first);
@@ -432,6 +440,10 @@ impl Incarnation {
     }
 }
 
+/// Bound on recorded queue_next_block calls per case (a correct manager submits each
+/// number at most once per incarnation; the generator stays far below this).
+const MAX_SUBMITS: usize = 4000;
+
 struct Noop;
 impl Wake for Noop {
     fn wake(self: Arc<Self>) {}
@@ -488,7 +500,7 @@ async fn run_case(
 ) -> Value {
     let first_block = u64_of(&c["first_block"]);
     let cap = c["cap"].as_i64().unwrap_or(100) as i128;
-    let w = World::new(pool, first_block);
+    let w = Arc::new(World::new(pool, first_block));
     // blocks of the case
     let mut blocks = vec![];
     let mut by_payload: HashMap<Vec<u8>, i64> = HashMap::new();
@@ -500,6 +512,7 @@ async fn run_case(
     }
     let init = w.state(&c["init"]);
     let eng = Eng(Arc::new(Inner {
+        world: w.clone(),
         genesis: w.genesis.clone(),
         persisted: sync::watch::channel(init.clone()).0,
         durable: Mutex::default(),
@@ -509,14 +522,6 @@ async fn run_case(
         notify: tokio::sync::Notify::new(),
         get_calls: AtomicU64::new(0),
     }));
-    {
-        // initial durable content
-        let mut d = eng.0.durable.lock().unwrap();
-        let next = init.next().0;
-        for n in init.first.0.max(next.saturating_sub(400))..next {
-            d.insert(n, w.side_block(n));
-        }
-    }
     let mut inc = match Incarnation::new(&eng).await {
         Ok((mut inc, runner)) => {
             inc.spawn_runner(runner);
@@ -549,7 +554,7 @@ async fn run_case(
             }
             "persist" => {
                 for p in op["ps"].as_array().unwrap() {
-                    eng.publish(&w, w.state(p));
+                    eng.publish(w.state(p));
                 }
                 json!([])
             }
